@@ -27,13 +27,19 @@ def run(ctx, res):
     rng = np.random.default_rng(ctx["seed"] + 606)
     M = impl._minerals
     core = impl._core
-    n_sc = 14 if not ctx["thorough"] else 120
+    n_sc = 21 if not ctx["thorough"] else 126
     res.rule = ("scenarios: (phase,fabric) x accepted regime {0,1,4,6,7} x L(t,x) family {const,time,space,both} x F0 (identity / random "
                 "with det>0) x 1..4 (thorough: 1..50) update calls x n in 2..16 (thorough 2..64); each is non-trivial (non-commuting L, F0) "
                 "and distinct by seed; returned F compared with an RK4 reference; F block of eval_rhs compared with the model")
     for k in range(n_sc):
         sc = solver.make_scenario(rng, k, nmax=16 if not ctx["thorough"] else 64, regimes=solver.ACCEPTED_REGIMES,
-                                  max_updates=4 if not ctx["thorough"] else (50 if k % 10 == 0 else 6))
+                                  max_updates=4 if not ctx["thorough"] else (50 if k % 10 == 0 else 6),
+                                  fields=solver.EDGE_FIELD_KINDS + solver.FIELD_KINDS)
+        # phase fractions on the simplex, including a phase with zero volume fraction
+        pf = [(0.7, 0.3), (1.0, 0.0), (0.0, 1.0), (0.5, 0.5), (0.3, 0.7)][(k // 2) % 5]
+        sc["phase_fractions"] = pf
+        res.count("field:" + sc["field_kind"])
+        res.count(f"phase_fraction_of_mineral={pf[sc['phase']]}")
         m, Fs, rec = solver.run_scenario(sc)
         res.evaluations += 1
         res.nontrivial(("c06", k, sc["tex_seed"]))
@@ -81,6 +87,7 @@ def run(ctx, res):
     n_b = 4 if not ctx["thorough"] else 24
     for k in range(n_b):
         sc = solver.make_scenario(rng, k, nmax=12, regimes=(4,))
+        sc["phase_fractions"] = [(0.7, 0.3), (1.0, 0.0), (0.0, 1.0), (0.4, 0.6)][k % 4]
         scs = []
         for (ph, fa) in [(0, int(rng.integers(0, 5))), (1, 5)]:
             s2 = dict(sc)
